@@ -8,6 +8,8 @@ NOTE = ("Trusted: z3 5.1 / cvc5 1.0.3 verdicts; the pyvc executor's encoding of 
         "bs4/lxml/cssutils; floats under the standard error model (binary64, round-to-nearest, no overflow); "
         "the bounded parts are run-time contract evaluation, never counted as proof. See evidence/<id>.json.")
 CLAIMED = {
+ "C12": ("contract-based deductive verification (AST->SMT VCs on the WebVTT cue-settings arithmetic and the DFXP layout/alignment attribute functions) + bounded DFXP write/read round trips",
+         "P: WebVTT align/position/line/size arithmetic and order for every percentage layout with an origin (with and without fit-to-screen), verbatim cue settings, alignment external/internal identity, layout->region attributes incl. TTML padding order; B: DFXP round trip of layouts at all levels through the real parsers, cue grouping by layout", "3 C12"),
  "C13": ("contract-based deductive verification (AST->SMT VCs, float standard model, modular callee contracts) + bounded run-time contracts on the three positioning writers",
          "P: Size.as_percentage_of (exact arithmetic within 8 ulp, refusal, unit), axes of Point/Stretch/Padding/Layout, fit_to_screen edges, writer entry point, WebVTT never prints a non-percentage; B: DFXP/SAMI/WebVTT writers over units x values x video sizes x levels (one known finding: unfitted DFXP div region, pinned by a test)", "3 C13"),
  "C18": ("contract-based deductive verification (AST->SMT VCs on __eq__/__hash__/parsers, bottom-up with callee contracts; z3 regular-language equivalence for the size grammar) + bounded run-time contracts for float printing",
